@@ -36,7 +36,8 @@ OPWORDS = wf.KEYWORDS
 
 def norm_shape(n):
     ident = n.ident
-    if n.kind in ("bin_op", "unary_op") or (n.kind == "terminal" and ident.lower() in OPWORDS):
+    # the layout step re-cases every word that is a keyword — also where the grammar takes it as a NAME (`proc Top`)
+    if n.kind in ("bin_op", "unary_op") or ident.lower() in OPWORDS or any(p_.lower() in OPWORDS for p_ in ident.split("#")):
         ident = ident.lower()
     # comments are layout (the token parsers skip them); they are not constructs of the tree under comparison
     return "(%s %s%s)" % (n.kind, ident, "".join(" " + norm_shape(k) for k in n.kids if k.kind != "comment"))
@@ -44,7 +45,7 @@ def norm_shape(n):
 
 def norm_expected(n):
     kind, ident, kids = n
-    if kind in ("bin_op", "unary_op") or (kind == "terminal" and ident.lower() in OPWORDS):
+    if kind in ("bin_op", "unary_op") or ident.lower() in OPWORDS or any(p_.lower() in OPWORDS for p_ in ident.split("#")):
         ident = ident.lower()
     return "(%s %s%s)" % (kind, ident, "".join(" " + norm_expected(k) for k in kids if k[0] != "comment"))
 
